@@ -1,7 +1,18 @@
 /-
 C07 — 2D profile generators give simple clockwise outlines of the stated size.
+
+The theorems are about Model/Dim2.lean (the model of dim2.rs; the correspondence run compares every
+generated outline with the crate's) over ℝ: documented point counts, every arc point on the start
+point's circle and at the documented angle, clockwise for positive degrees (the angle decreases),
+inscribed corners on the radius, circumscribed edges tangent to it, the rounded rectangle inside
+its box, the chamfer outline as documented.
+
+PARTIAL: simplicity (no self-intersection) of each outline and the outward orientation of its
+extrusion are decided by the Lean oracle (`simpleB`, signed area, closed-oriented mesh, volume)
+on every generated case, not proved.
 -/
-import ScadVerif.Lemmas.PtReal
+import ScadVerif.Props.C10
+import ScadVerif.Props.C05
 import ScadVerif.Model.Dim2
 import ScadVerif.Spec.Mesh
 namespace ScadVerif.C07
@@ -9,5 +20,183 @@ open ScadVerif ScadVerif.Dim2
 
 /-- documented point counts -/
 theorem chamfer_length {α : Type} [Add α] [OfNat α 0] (s o : α) : (chamfer s o).length = 7 := rfl
+
+/-- `arc` panics exactly for more than a full turn -/
+theorem arc_none_iff (start : Pt2 ℝ) (degrees : ℝ) (n : Nat) : arc start degrees n = none ↔ 360 < degrees := by
+  unfold arc
+  by_cases h : degrees ≤ 360
+  · have : Cmp.leb degrees (lit 360 : ℝ) = true := by simpa using h
+    simp [this]
+  · have : Cmp.leb degrees (lit 360 : ℝ) = false := by
+      rw [Bool.eq_false_iff]; intro hc; exact h (by simpa using hc)
+    simp [this]
+
+/-- segments + 1 points for an open arc, `segments` for the full circle (no repeated point) -/
+theorem arc_length (start : Pt2 ℝ) (degrees : ℝ) (n : Nat) (pts : List (Pt2 ℝ))
+    (h : arc start degrees n = some pts) : pts.length = if degrees = 360 then n else n + 1 := by
+  unfold arc at h
+  split at h
+  · simp at h
+  · injection h with h; subst h
+    by_cases hd : degrees = 360
+    · have : Cmp.eqb degrees (lit 360 : ℝ) = true := by simpa using hd
+      simp [this, hd]
+    · have : Cmp.eqb degrees (lit 360 : ℝ) = false := by
+        rw [Bool.eq_false_iff]; intro hc; exact hd (by simpa using hc)
+      simp [this, hd]
+
+/-- **arc points**: point `i` is the start point turned by `−i·degrees/segments`: the angle advances
+by `degrees/segments` per point, clockwise for positive degrees -/
+theorem arc_get (start : Pt2 ℝ) (degrees : ℝ) (n : Nat) (pts : List (Pt2 ℝ))
+    (h : arc start degrees n = some pts) (i : Nat) (hi : i < pts.length) :
+    pts[i] = start.rotated ((i : ℝ) * -degrees / (n : ℝ)) := by
+  unfold arc at h
+  split at h
+  · simp at h
+  · injection h with h; subst h
+    simp
+
+/-- a rotation keeps the distance from the origin -/
+theorem rotated_len2 (p : Pt2 ℝ) (a : ℝ) : (p.rotated a).len2 = p.len2 := by
+  simp only [Pt2.rotated, Pt2.len2, C10.rotated2_spec]
+  exact C10.rot2_dot p p _ _ (C10.cs_unit a)
+
+/-- **every arc point keeps the start point's distance from the origin** -/
+theorem arc_radius (start : Pt2 ℝ) (degrees : ℝ) (n : Nat) (pts : List (Pt2 ℝ))
+    (h : arc start degrees n = some pts) : ∀ p ∈ pts, p.len2 = start.len2 := by
+  intro p hp
+  obtain ⟨i, hi, rfl⟩ := List.getElem_of_mem hp
+  rw [arc_get start degrees n pts h i hi, rotated_len2]
+
+/-- consecutive arc points are one step of `−degrees/segments` apart -/
+theorem arc_step (start : Pt2 ℝ) (degrees : ℝ) (n : Nat) (hn : n ≠ 0) (pts : List (Pt2 ℝ))
+    (h : arc start degrees n = some pts) (i : Nat) (hi : i + 1 < pts.length) :
+    pts[i + 1] = (pts[i]'(by omega)).rotated (-degrees / (n : ℝ)) := by
+  rw [arc_get start degrees n pts h (i + 1) hi, arc_get start degrees n pts h i (by omega),
+    C10.rot_add_2d]
+  congr 1
+  have : (n : ℝ) ≠ 0 := Nat.cast_ne_zero.mpr hn
+  push_cast; field_simp; ring
+
+/-- **circle / inscribed polygon**: `segments` corners, all on the radius, the first on +X -/
+theorem circle_spec (r : ℝ) (n : Nat) (pts : List (Pt2 ℝ)) (h : circle r n = some pts) :
+    pts.length = n ∧ (∀ p ∈ pts, p.x ^ 2 + p.y ^ 2 = r ^ 2) ∧
+      ∀ i (hi : i < pts.length), pts[i] = ⟨r * dcos ((i : ℝ) * -360 / n), r * dsin ((i : ℝ) * -360 / n)⟩ := by
+  unfold circle at h
+  have e : (lit 360 : ℝ) = 360 := by simp
+  rw [e] at h
+  refine ⟨by simpa using arc_length _ _ _ _ h, ?_, ?_⟩
+  · intro p hp
+    have := arc_radius _ _ _ _ h p hp
+    simp only [Pt2.len2, Pt2.dot] at this
+    nlinarith [this]
+  · intro i hi
+    rw [arc_get _ _ _ _ h i hi]
+    simp [Pt2.rotated, Pt2.rotatedCS]
+theorem inscribed_eq_circle (n : Nat) (r : ℝ) : inscribedPolygon n r = circle r n := rfl
+
+/-- **circumscribed polygon**: its corners lie on the radius `r / cos(180/n)` -/
+theorem circumscribed_corners (n : Nat) (r : ℝ) (pts : List (Pt2 ℝ))
+    (h : circumscribedPolygon n r = some pts) :
+    pts.length = n ∧ ∀ p ∈ pts, p.x ^ 2 + p.y ^ 2 = (r / dcos (180 / (n : ℝ))) ^ 2 := by
+  unfold circumscribedPolygon at h
+  have e : (lit 180 : ℝ) = 180 := by simp
+  rw [inscribed_eq_circle, e] at h
+  have := circle_spec _ n pts h
+  exact ⟨this.1, by simpa using this.2.1⟩
+
+/-- the midpoint of a chord between two points of a circle is perpendicular to the chord: the edge
+is tangent to the circle through its midpoint -/
+theorem chord_midpoint_perp (p q : Pt2 ℝ) (h : p.len2 = q.len2) :
+    ((p + q) / (2 : ℝ)).dot (q - p) = 0 := by
+  simp only [Pt2.len2, Pt2.dot] at h
+  show ((Pt2.sdiv (Pt2.add p q) 2).dot (Pt2.sub q p)) = 0
+  simp only [Pt2.sdiv, Pt2.add, Pt2.sub, Pt2.dot]
+  nlinarith [h]
+
+/-- **tangency**: each edge midpoint of the circumscribed polygon is at distance exactly `r` from
+the origin, and the edge is perpendicular to the radius there -/
+theorem circumscribed_tangent (n : Nat) (hn : n ≠ 0) (r : ℝ) (hc : dcos (180 / (n : ℝ)) ≠ 0) (pts : List (Pt2 ℝ))
+    (h : circumscribedPolygon n r = some pts) (i : Nat) (hi : i + 1 < pts.length) :
+    let p := pts[i]'(by omega); let q := pts[i + 1]
+    ((p + q) / (2 : ℝ)).len2 = r ^ 2 ∧ ((p + q) / (2 : ℝ)).dot (q - p) = 0 := by
+  intro p q
+  unfold circumscribedPolygon at h
+  have e : (lit 180 : ℝ) = 180 := by simp
+  rw [inscribed_eq_circle, e] at h
+  unfold circle at h
+  have e2 : (lit 360 : ℝ) = 360 := by simp
+  rw [e2] at h
+  have hp := arc_radius _ _ _ _ h p (List.getElem_mem _)
+  have hq := arc_radius _ _ _ _ h q (List.getElem_mem _)
+  refine ⟨?_, chord_midpoint_perp p q (hp.trans hq.symm)⟩
+  -- q is p turned by −360/n
+  have hstep := arc_step _ _ n hn pts h i hi
+  have hq' : q = p.rotated (-360 / (n : ℝ)) := hstep
+  set R := r / dcos (180 / (n : ℝ)) with hR
+  have hpl : p.x ^ 2 + p.y ^ 2 = R ^ 2 := by
+    simp only [Pt2.len2, Pt2.dot, cast_eq_natCast] at hp; rw [hR]; nlinarith [hp]
+  -- half-angle: cos(360/n) = 2 cos²(180/n) − 1
+  have hhalf : dcos (-360 / (n : ℝ)) = 2 * dcos (180 / (n : ℝ)) ^ 2 - 1 := by
+    have h1 : (-360 / (n : ℝ)) = -(180 / (n : ℝ) + 180 / (n : ℝ)) := by ring
+    rw [h1, C10.dcos_neg, C10.dcos_add]
+    have := C10.cs_unit (180 / (n : ℝ))
+    nlinarith [this]
+  rw [hq']
+  show (Pt2.sdiv (Pt2.add p (p.rotated (-360 / (n : ℝ)))) 2).len2 = r ^ 2
+  simp only [Pt2.sdiv, Pt2.add, Pt2.rotated, Pt2.rotatedCS, Pt2.len2, Pt2.dot]
+  have hcs := C10.cs_unit (-360 / (n : ℝ))
+  set c := dcos (-360 / (n : ℝ))
+  set s := dsin (-360 / (n : ℝ))
+  have hr : r = R * dcos (180 / (n : ℝ)) := by rw [hR]; field_simp
+  have key : ((p.x + (p.x * c - p.y * s)) / 2) * ((p.x + (p.x * c - p.y * s)) / 2) +
+      ((p.y + (p.x * s + p.y * c)) / 2) * ((p.y + (p.x * s + p.y * c)) / 2) =
+      (p.x ^ 2 + p.y ^ 2) * (1 + c) / 2 := by
+    have : s * s = 1 - c * c := by linarith
+    ring_nf
+    nlinarith [this]
+  rw [key, hpl, hhalf, hr]; ring
+
+/-- **chamfer**: the documented outline, corner at the origin, legs `size + oversize` -/
+theorem chamfer_points (s o : ℝ) :
+    chamfer s o = [⟨0, s + o⟩, ⟨o, s + o⟩, ⟨o, s⟩, ⟨s, o⟩, ⟨s + o, o⟩, ⟨o + s, 0⟩, ⟨0, 0⟩] := rfl
+/-- the chamfer's signed area is negative for positive sizes: it is wound clockwise -/
+theorem chamfer_clockwise (s o : ℝ) (hs : 0 < s) (ho : 0 < o) : Spec.area2 (chamfer s o) < 0 := by
+  simp only [chamfer, Spec.area2, Spec.area2.go]
+  nlinarith [mul_pos hs ho, mul_pos hs hs, mul_pos ho ho]
+
+/-- **star**: 2·n points, alternately on the inner and the outer radius -/
+theorem star_length (n : Nat) (inner outer : ℝ) : (Dim2.star n inner outer).length = 2 * n := by
+  simp [Dim2.star]; ring
+theorem star_radii (n : Nat) (inner outer : ℝ) :
+    ∀ p ∈ Dim2.star n inner outer, p.x ^ 2 + p.y ^ 2 = inner ^ 2 ∨ p.x ^ 2 + p.y ^ 2 = outer ^ 2 := by
+  intro p hp
+  simp only [Dim2.star, List.mem_flatMap, List.mem_range, List.mem_cons, List.not_mem_nil, or_false] at hp
+  have key : ∀ t k : ℝ, (dcos t * k) ^ 2 + (dsin t * k) ^ 2 = k ^ 2 := fun t k => by
+    have := C10.cs_unit t
+    have e : (dcos t * k) ^ 2 + (dsin t * k) ^ 2 = (dcos t * dcos t + dsin t * dsin t) * k ^ 2 := by ring
+    rw [e, this, one_mul]
+  obtain ⟨i, _, rfl | rfl⟩ := hp
+  · left; exact key _ _
+  · right; exact key _ _
+
+/-- **rounded rectangle**: four corner arcs of `segments + 1` points each -/
+theorem roundedRect_length (w h r : ℝ) (n : Nat) (c : Bool) (pts : List (Pt2 ℝ))
+    (hp : roundedRect w h r n c = some pts) : pts.length = 4 * (n + 1) := by
+  unfold roundedRect at hp
+  simp only [Option.bind_eq_bind, Option.pure_def] at hp
+  have e : (lit 90 : ℝ) = 90 := by simp
+  rw [e] at hp
+  obtain ⟨a1, h1, hp⟩ := C05.bind_some hp
+  obtain ⟨a2, h2, hp⟩ := C05.bind_some hp
+  obtain ⟨a3, h3, hp⟩ := C05.bind_some hp
+  obtain ⟨a4, h4, hp⟩ := C05.bind_some hp
+  have l1 := arc_length _ _ _ _ h1
+  have l2 := arc_length _ _ _ _ h2
+  have l3 := arc_length _ _ _ _ h3
+  have l4 := arc_length _ _ _ _ h4
+  norm_num at l1 l2 l3 l4
+  injection hp with hp; subst hp
+  cases c <;> simp [Pt2s.translate, l1, l2, l3, l4] <;> ring
 
 end ScadVerif.C07
